@@ -711,9 +711,9 @@ func (s *Session) SetUnmarshaller(unmarshaller Unmarshaller) {
 }
 
 func (s *Session) Stop() (err error) {
-	defer func() {
-		s.eventHandler.Clean()
-	}()
+	// Drop the handlers registered so far; the handler for the peer's Logout
+	// answer is registered below and must stay.
+	s.eventHandler.Clean()
 
 	err = s.Logout()
 	if err != nil {
